@@ -200,3 +200,59 @@ def Cond.run (c : Cond) : List Bool → Cond
 end Sync
 
 end AslModel.Thread
+
+/-! ## condition variable with any number of waiters (`signal()` is a broadcast) -/
+namespace AslModel.Thread.SyncN
+open AslModel.Thread.Sync
+
+inductive Holder where
+  | free
+  | signaler
+  | waiter (i : Nat)
+deriving Repr, DecidableEq
+
+structure CondN where
+  n : Nat
+  mutex : Holder
+  pred : Bool
+  w : Nat → WPc
+  s : SPc
+
+def upd {α} (f : Nat → α) (k : Nat) (v : α) : Nat → α := fun j => if j = k then v else f j
+
+def init (n : Nat) : CondN := ⟨n, Holder.free, false, fun _ => WPc.start, SPc.start⟩
+
+/-- actors: `some i` = waiter `i`, `none` = the signaler -/
+def enabled (c : CondN) : Option Nat → Bool
+  | some i => i < c.n && (match c.w i with
+    | WPc.start => c.mutex == Holder.free
+    | WPc.locked => true
+    | WPc.woken => c.mutex == Holder.free
+    | _ => false)
+  | none => match c.s with
+    | SPc.start => c.mutex == Holder.free
+    | SPc.locked => true
+    | SPc.predSet => true
+    | SPc.signalled => true
+    | SPc.done => false
+
+def step (c : CondN) : Option Nat → CondN
+  | some i => match c.w i with
+    | WPc.start => { c with mutex := Holder.waiter i, w := upd c.w i WPc.locked }
+    | WPc.locked =>
+      if c.pred then { c with mutex := Holder.free, w := upd c.w i WPc.done }
+      else { c with mutex := Holder.free, w := upd c.w i WPc.sleeping }
+    | WPc.woken => { c with mutex := Holder.waiter i, w := upd c.w i WPc.locked }
+    | _ => c
+  | none => match c.s with
+    | SPc.start => { c with mutex := Holder.signaler, s := SPc.locked }
+    | SPc.locked => { c with pred := true, s := SPc.predSet }
+    | SPc.predSet => { c with s := SPc.signalled, w := fun j => if c.w j = WPc.sleeping then WPc.woken else c.w j }
+    | SPc.signalled => { c with mutex := Holder.free, s := SPc.done }
+    | SPc.done => c
+
+def run (c : CondN) : List (Option Nat) → CondN
+  | [] => c
+  | a :: r => run (if enabled c a then step c a else c) r
+
+end AslModel.Thread.SyncN
